@@ -292,32 +292,37 @@ func execConc(w []string, line string, out *xvlib.Out) string {
 	for i, p := range ps {
 		alone[i] = p.call()
 	}
-	var mu sync.Mutex
+	// every goroutine makes `chain` calls back to back (certificates i, i+1, ...: of different lengths), so that calls
+	// START while others are in the middle of their signature loops, not only all at the same instant
+	const chain = 5
 	reported := false
 	for k := 0; k < rounds && !reported; k++ {
 		var wg sync.WaitGroup
 		start := make(chan struct{})
-		got := make([]string, len(ps))
+		got := make([][chain]string, len(ps))
 		for i := range ps {
 			wg.Add(1)
 			go func(i int) {
 				defer wg.Done()
 				<-start
-				got[i] = ps[i].call()
+				for j := 0; j < chain; j++ {
+					got[i][j] = ps[(i+j)%len(ps)].call()
+				}
 			}(i)
 		}
 		close(start)
 		wg.Wait()
-		for i, p := range ps {
-			if got[i] == alone[i] {
-				continue
+		for i := range ps {
+			for j := 0; j < chain && !reported; j++ {
+				p := ps[(i+j)%len(ps)]
+				if got[i][j] == alone[(i+j)%len(ps)] {
+					continue
+				}
+				if got[i][j] == "panic" || (got[i][j] == "accept" && p.others < quorum(p.n)) {
+					reported = true
+				}
+				p.judge(got[i][j], []string{line}, out, fmt.Sprintf("when %d goroutines made CheckProposal calls at once on the same instance (alone: %s)", len(ps), alone[(i+j)%len(ps)]))
 			}
-			mu.Lock()
-			if !reported {
-				reported = true
-				p.judge(got[i], []string{line}, out, fmt.Sprintf("when %d CheckProposal calls ran at once on the same instance (alone: %s)", len(ps), alone[i]))
-			}
-			mu.Unlock()
 		}
 	}
 	if out != nil {
@@ -381,9 +386,9 @@ func genOverlap(rng *xvlib.Rng, thorough bool, run func(line string, nontrivial 
 			}
 		}
 	}
-	rounds, lines := 60, 6
+	rounds, lines := 25, 6
 	if thorough {
-		rounds, lines = 600, 20
+		rounds, lines = 300, 20
 	}
 	for i := 0; i < lines; i++ {
 		n := 3 + rng.Intn(8)
